@@ -29,7 +29,7 @@ def main():
         groups = {}
         for c in cases:
             p = c["prog"]
-            groups.setdefault((p["mode"], p["deps"], p["async"], len(p["params"]), p.get("stamp", False)), []).append(c)
+            groups.setdefault((p["mode"], p["deps"], p["async"], len(p["params"]), p.get("stamp", False), p.get("featoff", False)), []).append(c)
         sel = []
         for k in sorted(groups, key=str):
             g = groups[k]
@@ -37,9 +37,9 @@ def main():
             sel += g[:4]
     progs = {}
     for c in sel:
-        c["feature"] = True
+        c["feature"] = not c["prog"].get("featoff", False)
         progs[c["case"]] = mockprogs.render("c" + c["case"], c, vf.seed())
-    events, dropped, recs = c01.run_programs(chk, sel, progs, "c11", mockprogs.PRELUDE, ["vt"])
+    events, dropped, recs = c01.run_programs(chk, sel, progs, "c11", mockprogs.PRELUDE, ["vt"], off_deps=["unimock"])
     bad, drift = vf.validate(chk, "Trace_Runtime", events, timeout=2400)
     byid = {c["case"]: c for c in sel}
     # drift: the unmock_with list in the recorded expansion vs Level 2
@@ -76,7 +76,7 @@ def main():
     chk.cov["programs_rejected_by_rustc"] = len(dropped)
     chk.cov["distinct_nontrivial"] = len({json.dumps(c["prog"], sort_keys=True) for c in sel if c["case"] not in dropped})
     chk.cov["rule"] = ("mockable programs: fn | mod of 2..3 same-signature fns | entraited trait x deps {generic &D, &impl Bound, no_deps, concrete} x "
-                       "sync/async x <= N parameters of kinds {i32, String, &str, destructured tuple}; scenarios mock / partial / impl (or "
+                       "sync/async x {entrait's unimock feature on; off, with the `unimock` option and the crate's own unimock dependency (sync, <= 1 parameter)} x <= N parameters of kinds {i32, String, &str, destructured tuple}; scenarios mock / partial / impl (or "
                        "partial-panics for concrete deps and traits) per method; quick: four seeded programs per (mode, deps, async, arity)")
     chk.cov["exhaustive"] = bool(thorough)
     chk.cov["samples"] = [{"program": c["prog"], "scenarios": c["scens"], "unmock_with": c["unmock"]} for c in sel[:: max(1, len(sel) // 5)][:5]]
@@ -84,8 +84,14 @@ def main():
         b["detail"] = f"scenario={b['sc']} at={b['at']} program={byid[b['case']]['prog']}"
     for cid, why in c01.CRASHED.items():
         bad.append({"case": cid, "conjunct": "runs-to-completion", "cls": "", "detail": f"program={byid[cid]['prog']} {why}"})
+    for c in sel:
+        if not c["compiles"] and c["case"] not in dropped:
+            ndrift += 1
+            vf.log(f"SPEC-DRIFT C11 case={c['case']} compiles although Level 2 predicts that it cannot (program={c['prog']})")
+    chk.cov["drift"] = ndrift
     for cid in dropped:
-        bad.append({"case": cid, "conjunct": "mock-api-nameable-and-compiles", "cls": "",
+        bad.append({"case": cid, "conjunct": "mock-api-nameable-and-compiles", # (the named deviation is the missing re-export, nothing else that may go wrong in such a program)
+                    "cls": byid[cid].get("cls", "") if any("cannot find `__unimock` in `entrait`" in d["message"] for d in dropped[cid]) else "",
                     "detail": f"program={byid[cid]['prog']} diag={[d['message'][:160] for d in dropped[cid]][:2]}"})
 
     def write_replay(viol):
